@@ -87,7 +87,9 @@ func (s *Sim) installC17() {
 			if age < s.sc.Send.MinAge {
 				s.violate("C17", "too-young-file-scanned", "scan started %s returned %s whose age was %s, below the minimum age %s", sc.Start.Format("15:04:05"), name, age, s.sc.Send.MinAge)
 			}
-			k := fmt.Sprintf("%d|%s|%d|%d", n.inc, name, sc.Sizes[i], sc.Times[i])
+			// (the version object: a file deleted and created anew with the same
+			// size and time is another file, and is rightly found again)
+			k := fmt.Sprintf("%d|%s|%d|%d|%p", n.inc, name, sc.Sizes[i], sc.Times[i], s.world.current(name))
 			if seen[k] {
 				// the same version found again by a later scan of the same process:
 				// legitimate only if it had to be retried (hash failed) - not modelled, so
@@ -194,7 +196,12 @@ func (s *Sim) installC17() {
 						size = v.Size
 					}
 				}
-				if size > 0 && b > size {
+				if size > 0 && b > size && s.versionsInFlightTogether(s.sc.Send.Name, f[0]) {
+					// parts of the version it replaced were still streaming into the
+					// staged file: the new version failed validation and had to be
+					// sent again (see the known finding on versions in flight together)
+					s.stat("probe:resent-after-versions-in-flight-together")
+				} else if size > 0 && b > size {
 					s.violate("C17", "version-sent-more-than-once", "fault-free run transmitted %d bytes of %s (size %d)", b, f[0], size)
 				}
 			}
